@@ -120,7 +120,7 @@ def main():
         ],
         "checks": checks,
         "not_applicable": na,
-        "notes": "Genuine defects found and repaired by fix: commits in /repo are listed in /verif/known_findings.txt (fixed: lines); genuine defects recorded but not repaired are its known: lines. ./check selfcheck proves run determinism (same seed, separate processes, 1 vs 16 workers). Replay files are of three kinds, all understood by the replay command: a minimised explicit plan (world, operations, fault plan), a thread history (for violations that depend on state the code under test carries across runs), a build-gate record (the corpus programs of the property's worlds no longer compile). Every check ends with cold-start probes in fresh single-threaded processes. C02 and C11 also run in a second, lean build configuration of sylvia. /verif/seeded holds 246 seeded changes (four of them not caught, see DESIGN.md 8.5) written by independent sub-agents (patch, demonstration, confirmation, verdict of the check).",
+        "notes": "Genuine defects found and repaired by fix: commits in /repo are listed in /verif/known_findings.txt (fixed: lines); genuine defects recorded but not repaired are its known: lines. ./check selfcheck proves run determinism (same seed, separate processes, 1 vs 16 workers). Replay files are of three kinds, all understood by the replay command: a minimised explicit plan (world, operations, fault plan), a thread history (for violations that depend on state the code under test carries across runs), a build-gate record (the corpus programs of the property's worlds no longer compile). Every check ends with cold-start probes in fresh single-threaded processes. C02 and C11 also run in a second, lean build configuration of sylvia. /verif/seeded holds 246 seeded changes (three of them not caught, see DESIGN.md 8.5) written by independent sub-agents (patch, demonstration, confirmation, verdict of the check).",
     }
     with open(os.path.join(VERIF, "MANIFEST.json"), "w") as f:
         json.dump(m, f, indent=1)
